@@ -20,7 +20,8 @@ TECHNIQUE = (
 RULE = (
     "case = (n_t, n_d in [50, 1500] (small sizes over-represented), decoy law normal/gumbel/gamma, target mixture pi1 0.1-0.8 and separation 1-5 "
     "sigma, optional rounding to 1-3 decimals (ties), data seed, permutation seed, algorithm in {qvality, kde_nnls, "
-    "hist_nnls, from_counts, from_peps}, optional file-level run through assign_confidence). Non-trivial: both classes "
+    "hist_nnls, from_counts, from_peps}, optional file-level history: assign_confidence called twice with the same score list, "
+    "scores handed over as higher- or lower-is-better, one or two collections, the latter combined by brew_rollup). Non-trivial: both classes "
     ">= 50 and the input is not sorted by score. Distinct = distinct canonical JSON."
 )
 ASSUMPTIONS = [
@@ -114,6 +115,36 @@ def _triqler(scores, targets):
     return np.sort(scores)[::-1], np.asarray(peps, dtype=float), order
 
 
+def _check_rollup_peps(case, algo, src, counters):
+    """The stand-alone rollup tool re-estimates PEPs for the combined rows of every level it writes."""
+    from mokapot import brew_rollup
+
+    guarded(brew_rollup.main, ["--level", "peptide", "--src_dir", str(src), "--dest_dir", str(src), "--verbosity", "0",
+                               "--peps_algorithm", algo], allowed=ALLOWED + [(ValueError, "Value .* exceeds|should be descending")],
+            sig="brew_rollup")
+    tf = pd.read_csv(src / "rollup.targets.peptides", sep="\t", float_precision="round_trip")
+    dfl = pd.read_csv(src / "rollup.decoys.peptides", sep="\t", float_precision="round_trip")
+    for fr, nm in ((tf, "targets"), (dfl, "decoys")):
+        pp = fr["posterior_error_prob"].values.astype(float)
+        sc = fr["score"].values.astype(float)
+        require(bool(np.all(np.diff(sc) <= 0)), "rollup-order", f"rollup.{nm}.peptides is not in non-increasing score order")
+        require(bool(np.all(np.diff(pp) >= -1e-9)), "rollup-pep-order",
+                f"rollup.{nm}.peptides: the PEP decreases {int((np.diff(pp) < -1e-9).sum())} times while the score worsens (algorithm {algo})")
+    allr = pd.concat([tf.assign(_t=True), dfl.assign(_t=False)]).sort_values("score", ascending=False, kind="stable")
+    ls, lt = allr["score"].values.astype(float), allr["_t"].values.astype(bool)
+    if lt.sum() >= 30 and (~lt).sum() >= 30:
+        try:
+            refp = np.asarray(guarded(_func(algo), ls.copy(), lt.copy(), allowed=ALLOWED, sig=algo), dtype=float)
+        except Rejected:
+            return
+        got = allr["posterior_error_prob"].values.astype(float)
+        tolf = 1e-3 if algo in ("kde_nnls", "hist_nnls") else 1e-9
+        bad = np.abs(got - refp) > tolf + 1e-9 * np.abs(refp)
+        require(bad.mean() <= (0.02 if algo != "qvality" else 0.0), "rollup-pep-misaligned",
+                f"rollup peptides: {int(bad.sum())} of {len(got)} rows carry a PEP that is not the estimate for their score over the combined rows")
+        counters["rollup_rows_checked"] = counters.get("rollup_rows_checked", 0) + len(got)
+
+
 def check(case):
     import mokapot
 
@@ -194,36 +225,67 @@ def check(case):
             raise Rejected("too few PSMs of one class for the file-level part")
         rng = np.random.default_rng(case["seed"] + 5)
         peps_pool = datagen.peptide_pool(rng, max(5, m // 2))
-        df = pd.DataFrame({
-            "SpecId": [f"id{i}" for i in range(m)], "Label": np.where(tg, 1, -1), "ScanNr": np.arange(1, m + 1),
-            "ExpMass": 500.0 + np.arange(m) * 0.5, "f0": sc,
-            "Peptide": [peps_pool[int(i)] + ("" if t else "X") for i, t in zip(rng.integers(0, len(peps_pool), m), tg)],
-            "Proteins": ["p"] * m})
-        meta = {"key_cols": ["ScanNr", "ExpMass"], "features": ["f0"], "levels": ["Peptide"]}
+        pep_idx = rng.integers(0, len(peps_pool), m)
+        lowbetter = bool(case["seed"] % 2)  # the scores are handed over as "lower is better" (negated) in half of the cases
         with scratch_dir() as tmp:
-            path = tmp / "x.pin"
-            datagen.write_table(df, path)
-            ds = datagen.build_ondisk(path, df, meta)
-            guarded(mokapot.assign_confidence, [ds], max_workers=1, scores=[sc.copy()], descs=[True], eval_fdr=0.05, dest_dir=tmp,
-                    prefixes=[None], decoys=True, peps_algorithm=algo, allowed=ALLOWED, sig="assign_confidence")
-            for level in ("psms", "peptides"):
-                tf = pd.read_csv(tmp / f"targets.{level}", sep="\t", float_precision="round_trip")
-                dfl = pd.read_csv(tmp / f"decoys.{level}", sep="\t", float_precision="round_trip")
-                allr = pd.concat([tf.assign(_t=True), dfl.assign(_t=False)]).sort_values("score", ascending=False, kind="stable")
-                ls, lt = allr["score"].values.astype(float), allr["_t"].values.astype(bool)
-                for fr, nm in ((tf, "targets"), (dfl, "decoys")):
-                    pp = fr["posterior_error_prob"].values.astype(float)
-                    require(bool(np.all(np.diff(pp) >= -1e-9)), "file-pep-order", f"{nm}.{level}: PEP column decreases down the file")
-                if lt.sum() >= 30 and (~lt).sum() >= 30:
-                    try:
-                        refp = np.asarray(guarded(_func(algo), ls.copy(), lt.copy(), allowed=ALLOWED, sig=algo), dtype=float)
-                    except Rejected:
-                        continue
-                    got = allr["posterior_error_prob"].values.astype(float)
-                    bad = np.abs(got - refp) > 1e-9 + 1e-9 * np.abs(refp)
-                    require(not bad.any(), "file-pep-misaligned",
-                            f"{level}: {int(bad.sum())} rows carry a PEP that is not the estimate for their own score (algorithm {algo})")
-                    counters["file_rows_checked"] = counters.get("file_rows_checked", 0) + len(got)
+            halves = [(np.arange(m), "")]
+            if case["seed"] % 3 == 0:
+                # two collections with different score scales, later combined by the stand-alone rollup tool
+                halves = [(np.arange(0, m // 2), "a"), (np.arange(m // 2, m), "b")]
+            dss, given = [], []
+            for idx, name in halves:
+                shift = 1.5 if name == "b" else 0.0
+                df = pd.DataFrame({
+                    "SpecId": [f"{name}id{i}" for i in idx], "Label": np.where(tg[idx], 1, -1), "ScanNr": idx + 1,
+                    "ExpMass": 500.0 + idx * 0.5, "f0": sc[idx],
+                    "Peptide": [name + peps_pool[int(pep_idx[i])] + ("" if tg[i] else "X") for i in idx], "Proteins": ["p"] * len(idx)})
+                meta = {"key_cols": ["ScanNr", "ExpMass"], "features": ["f0"], "levels": ["Peptide"]}
+                path = tmp / f"x{name}.pin"
+                datagen.write_table(df, path)
+                dss.append((df, meta, path))
+                v = (sc[idx] * (2.0 if name == "b" else 1.0) + shift).astype(float)
+                given.append(-v if lowbetter else v)
+            prefixes = [name or None for _, name in halves]
+            score_list = [g.copy() for g in given]  # the SAME list object is handed to both calls below
+            for rep in (1, 2):
+                out = tmp / f"out{rep}"
+                out.mkdir()
+                psm_sets = [datagen.build_ondisk(p_, d_, m_) for d_, m_, p_ in dss]
+                guarded(mokapot.assign_confidence, psm_sets, max_workers=1, scores=score_list, descs=[not lowbetter] * len(dss),
+                        eval_fdr=0.05, dest_dir=out, prefixes=prefixes, decoys=True, peps_algorithm=algo, allowed=ALLOWED,
+                        sig="assign_confidence")
+                for (idx, name), g in zip(halves, given):
+                    pre = f"{name}." if name else ""
+                    for level in ("psms", "peptides"):
+                        tf = pd.read_csv(out / f"{pre}targets.{level}", sep="\t", float_precision="round_trip")
+                        dfl = pd.read_csv(out / f"{pre}decoys.{level}", sep="\t", float_precision="round_trip")
+                        allr = pd.concat([tf.assign(_t=True), dfl.assign(_t=False)])
+                        # rank by "goodness": the reported score is the one handed over, so lower is better if requested
+                        allr = allr.assign(_good=-allr["score"] if lowbetter else allr["score"]).sort_values("_good", ascending=False, kind="stable")
+                        ls, lt = allr["_good"].values.astype(float), allr["_t"].values.astype(bool)
+                        for fr, nm in ((tf, "targets"), (dfl, "decoys")):
+                            pp = fr["posterior_error_prob"].values.astype(float)
+                            require(bool(np.all(np.diff(pp) >= -1e-9)), "file-pep-order",
+                                    f"call {rep}, {pre}{nm}.{level}: PEP column decreases down the file (lower-is-better={lowbetter})")
+                        if lt.sum() >= 30 and (~lt).sum() >= 30:
+                            try:
+                                refp = np.asarray(guarded(_func(algo), ls.copy(), lt.copy(), allowed=ALLOWED, sig=algo), dtype=float)
+                            except Rejected:
+                                continue
+                            got = allr["posterior_error_prob"].values.astype(float)
+                            tolf = 1e-3 if algo in ("kde_nnls", "hist_nnls") else 1e-9
+                            bad = np.abs(got - refp) > tolf + 1e-9 * np.abs(refp)
+                            require(bad.mean() <= (0.02 if algo != "qvality" else 0.0), "file-pep-misaligned",
+                                    f"call {rep}, {pre}{level}: {int(bad.sum())} of {len(got)} rows carry a PEP that is not the estimate for their own "
+                                    f"score (algorithm {algo}, lower-is-better={lowbetter})")
+                            counters["file_rows_checked"] = counters.get("file_rows_checked", 0) + len(got)
+                for g0, g1 in zip(given, score_list):
+                    require(np.array_equal(g0, g1), "scores-mutated", f"assign_confidence changed the caller's score arrays (call {rep}, lower-is-better={lowbetter})")
+            if len(halves) == 2:
+                _check_rollup_peps(case, algo, tmp / "out1", counters)
+                classes.append("rollup-tool")
         classes.append("file-level")
+        if lowbetter:
+            classes.append("file-level-lower-is-better")
     sorted_in = bool(np.all(np.diff(scores) <= 0))
     return {"nontrivial": case["nt"] >= 50 and case["nd"] >= 50 and not sorted_in, "classes": classes, "counters": counters}
